@@ -469,6 +469,53 @@ async fn run_history(c: &Value) -> Value {
           None => note = json!("nothing parked under that id"),
         }
       },
+      "batch" => {
+        // several actions in ONE scheduler tick (no yield in between, duplex writes below the
+        // pipe's capacity complete at once): {"a":"send","k":..,"bytes":..} | {"a":"release","id":..,"outcome":..}
+        // | {"a":"hangup","k":..}.  The wake-ups are queued in this order.
+        let mut notes = Vec::new();
+        for a in op["acts"].as_array().unwrap() {
+          match a["a"].as_str().unwrap_or("") {
+            "send" => {
+              let k = a["k"].as_u64().unwrap();
+              let bytes = unhex(a["bytes"].as_str().unwrap());
+              if let Some(cl) = clients.get_mut(&k) {
+                if let Some(s) = cl.stream.as_mut() {
+                  use futures::FutureExt;
+                  match s.write_all(&bytes).now_or_never() {
+                    Some(Ok(())) => {},
+                    Some(Err(_)) => notes.push(json!("write failed")),
+                    None => notes.push(json!("write would block")),
+                  }
+                } else {
+                  notes.push(json!("closed"));
+                }
+              }
+            },
+            "release" => {
+              let n = a["id"].as_u64().unwrap();
+              let tx = mod_state.lock().unwrap().parked.remove(&n);
+              match tx {
+                Some(tx) => {
+                  let _ = tx.send(a.get("outcome").cloned().unwrap_or(json!("ok")));
+                },
+                None => notes.push(json!("nothing parked under that id")),
+              }
+            },
+            "hangup" => {
+              let k = a["k"].as_u64().unwrap();
+              if let Some(cl) = clients.get_mut(&k) {
+                cl.stream = None;
+                cl.closed = true;
+              }
+            },
+            _ => notes.push(json!("unknown act")),
+          }
+        }
+        if !notes.is_empty() {
+          note = Value::Array(notes);
+        }
+      },
       "m2s_direct" => {
         let payload = unhex(op["payload"].as_str().unwrap());
         let mut b = direct_pool.acquire_buffer().await;
